@@ -28,7 +28,8 @@ RULE = ('Producers = all public functions and public methods found by introspect
         'mutator in {reorder, sort_by, append, array write, dataset sort_by} applied to the result (sources '
         'must keep their fingerprint) or to a source (result must keep its fingerprint). state = (producer, '
         'variant) result, transition = one mutator application; distinct = (producer, variant, mutator, '
-        'direction, target).')
+        'direction, target).'
+        ' Argument menus include matrix stacks with non-zero / NaN diagonal and per-fold precision lists symmetric only up to rounding.')
 ASSUMPTIONS = ['pure accessors that by their documentation hand out the internal representation (get_vectors, '
                'to_dict, get_measurements-like views) are judged for "does not modify" but not for independence '
                '(they do not return a new object)',
